@@ -21,7 +21,8 @@ def claim_of(pid):
 
 
 CLAIMED = {p["id"]: claim_of(p["id"]) for p in props}
-CLAIMED = {k: v for k, v in CLAIMED.items() if v and k not in NOT_CLAIMED}
+READY = set(open(os.path.join(HERE, "tools", "claimed.txt")).read().split())   # integrated and passing on the unchanged tree
+CLAIMED = {k: v for k, v in CLAIMED.items() if v and k not in NOT_CLAIMED and k in READY}
 checks = []
 for p in props:
     i = p["id"]
